@@ -3,10 +3,10 @@ import EAO.Model.Grid
 /-!
 # EAO.Model.Param — model of `Asset.make_vector` and of price look-up
 
-A parameter is given as scalar, array (must already have the restricted length), key into the price
-data (sampled at the asset's grid indices `I`; for a coarse asset grid that is the FIRST fine index of
-each coarse step), or interval data evaluated on the restricted points (gaps filled with the default
-only where the caller passes one; otherwise a gap is NaN and the problem is rejected).
+A parameter is given as scalar, array (of the restricted length, or of length one: numpy broadcasting), key into
+the price data (sampled at the asset's grid indices `I`; for a coarse asset grid that is the FIRST fine index of
+each coarse step; an index beyond the array is an IndexError), or interval data evaluated on the restricted points
+(gaps filled with the default only where the caller passes one; otherwise a gap is NaN and the problem is rejected).
 -/
 namespace EAO
 
